@@ -36,6 +36,8 @@ def amount(rng, scale):
 def gen_case(rng, n, cid, shape=None, scale="int", links=None):
     tasks, roots = es.gen_structure(rng, n, shape)
     ids = rng.sample(range(0, 3 * n + 2), n)
+    if rng.random() < 0.3:
+        ids = [i + 1000 if i > 0 else i for i in ids]        # large numbers: equal ids are not the same int object
     nl = links if links is not None else rng.choice([0, 1, 2, 2, 3, 4, 5])
     for _ in range(nl):
         s, p = rng.randint(1, n), rng.randint(1, n)
